@@ -633,6 +633,7 @@ fn c23_malformed(out: &mut CaseOut) {
 pub struct UpIn {
     f: Option<Upload>,
     n: Option<i32>,
+    fs: Option<Vec<Option<Upload>>>,
 }
 
 pub struct UpQuery;
@@ -670,6 +671,9 @@ impl UpQuery {
     async fn echo_obj(&self, ctx: &Context<'_>, o: Option<UpIn>) -> Option<String> {
         o.and_then(|o| o.f.map(|u| format!("{}#{}", echo_upload(ctx, &u), o.n.unwrap_or(0))))
     }
+    async fn echo_obj_list(&self, ctx: &Context<'_>, o: Option<UpIn>) -> Vec<Option<String>> {
+        o.and_then(|o| o.fs).unwrap_or_default().into_iter().map(|u| u.map(|u| echo_upload(ctx, &u))).collect()
+    }
     async fn echo_req(&self, ctx: &Context<'_>, f: Upload) -> String {
         echo_upload(ctx, &f)
     }
@@ -683,7 +687,7 @@ fn up_schema() -> &'static Schema<PlainQuery, UpQuery, EmptySubscription> {
     S.get_or_init(|| Schema::new(PlainQuery, UpQuery, EmptySubscription))
 }
 
-const UP_QUERY: &str = "mutation($a: Upload, $b: [Upload], $o: UpIn) { a: echoOpt(f: $a) b: echoList(fs: $b) o: echoObj(o: $o) }";
+const UP_QUERY: &str = "mutation($a: Upload, $b: [Upload], $o: UpIn) { a: echoOpt(f: $a) b: echoList(fs: $b) o: echoObj(o: $o) ol: echoObjList(o: $o) }";
 
 // ------------------------------------------------------------------------------------------------
 // C24
@@ -718,24 +722,30 @@ fn expected_echo(f: &GenFile) -> String {
 fn run_c24(variant: usize) -> CaseOut {
     let mut out = CaseOut::default();
     let faults = variant == 1;
-    let n_req = if chance(1, 3) { 1 + draw(3) as usize } else { 0 }; // 0 = single
+    // 0 = single; batches of 1-3, now and then of 11-12 (two-digit request indices)
+    let n_req = if chance(1, 3) { if chance(1, 8) { 11 + draw(2) as usize } else { 1 + draw(3) as usize } } else { 0 };
     let reqs = n_req.max(1);
     // variables skeleton per request: a (null), b (list of nulls), o ({f:null,n:k})
     let mut vars: Vec<J> = vec![];
     let mut slots: Vec<(usize, String)> = vec![]; // (request index, variable path)
     for i in 0..reqs {
-        let nb = draw(3) as usize;
-        vars.push(json!({"a": null, "b": vec![J::Null; nb], "o": {"f": null, "n": i + 1}}));
+        // list lengths 0-2, now and then 11-12 (two-digit list indices)
+        let nb = if chance(1, 10) { 11 + draw(2) as usize } else { draw(3) as usize };
+        let nol = draw(3) as usize;
+        vars.push(json!({"a": null, "b": vec![J::Null; nb], "o": {"f": null, "n": i + 1, "fs": vec![J::Null; nol]}}));
         slots.push((i, "variables.a".into()));
         for k in 0..nb {
             slots.push((i, format!("variables.b.{k}")));
         }
         slots.push((i, "variables.o.f".into()));
+        for k in 0..nol {
+            slots.push((i, format!("variables.o.fs.{k}")));
+        }
     }
     let opts_kind = draw(4);
     let max_file_size: Option<usize> = if opts_kind >= 1 { Some([64usize, 600, 3000][draw(3) as usize]) } else { None };
     let max_num_files: Option<usize> = if opts_kind >= 2 { Some(1 + draw(3) as usize) } else { None };
-    let n_files = draw(5) as usize;
+    let n_files = draw(7) as usize;
     let mut files: Vec<GenFile> = vec![];
     for i in 0..n_files {
         let size = match (max_file_size, draw(4)) {
@@ -890,7 +900,9 @@ fn run_c24(variant: usize) -> CaseOut {
                     let exp_a = binding.get(&(ri, "variables.a".to_string())).map(|fi| json!(expected_echo(&files[*fi]))).unwrap_or(J::Null);
                     let exp_b: Vec<J> = (0..nb).map(|k| binding.get(&(ri, format!("variables.b.{k}"))).map(|fi| json!(expected_echo(&files[*fi]))).unwrap_or(J::Null)).collect();
                     let exp_o = binding.get(&(ri, "variables.o.f".to_string())).map(|fi| json!(format!("{}#{}", expected_echo(&files[*fi]), ri + 1))).unwrap_or(J::Null);
-                    let exp = json!({"a": exp_a, "b": exp_b, "o": exp_o});
+                    let nol = vars[ri]["o"]["fs"].as_array().unwrap().len();
+                    let exp_ol: Vec<J> = (0..nol).map(|k| binding.get(&(ri, format!("variables.o.fs.{k}"))).map(|fi| json!(expected_echo(&files[*fi]))).unwrap_or(J::Null)).collect();
+                    let exp = json!({"a": exp_a, "b": exp_b, "o": exp_o, "ol": exp_ol});
                     if o.get("errors").is_some() || o["data"] != exp {
                         out.viol("C24/wrong-binding", format!("request #{ri} executed to {o}, the reference model binds {exp}; {desc}"));
                         break;
